@@ -2,7 +2,48 @@
 
 package runner
 
-// VerifHooks exposes the hook lists of an execution context to the harnesses.
+import (
+	"reflect"
+	"unsafe"
+
+	"github.com/taskctl/taskctl/pkg/variables"
+)
+
+// VerifHooks returns a context's up/down/before/after commands. Which private field holds which list is
+// found out once by building a probe context through the exported constructor with sentinel values:
+// renaming or reordering the fields does not matter.
+var verifHookFields = func() (idx [4]int) {
+	probe := NewExecutionContext(nil, "", variables.NewVariables(), []string{"\x00up"}, []string{"\x00down"}, []string{"\x00before"}, []string{"\x00after"})
+	v := reflect.ValueOf(probe).Elem()
+	want := []string{"\x00up", "\x00down", "\x00before", "\x00after"}
+	for k := range idx {
+		idx[k] = -1
+	}
+	for i := 0; i < v.NumField(); i++ {
+		if v.Field(i).Type() != reflect.TypeOf([]string(nil)) {
+			continue
+		}
+		f := v.Field(i)
+		s := reflect.NewAt(f.Type(), unsafe.Pointer(f.UnsafeAddr())).Elem().Interface().([]string)
+		for k, w := range want {
+			if len(s) == 1 && s[0] == w {
+				idx[k] = i
+			}
+		}
+	}
+	for k := range idx {
+		if idx[k] < 0 {
+			panic("verif seam: cannot locate the hook lists of ExecutionContext")
+		}
+	}
+	return
+}()
+
 func VerifHooks(c *ExecutionContext) (up, down, before, after []string) {
-	return c.up, c.down, c.before, c.after
+	v := reflect.ValueOf(c).Elem()
+	get := func(i int) []string {
+		f := v.Field(i)
+		return reflect.NewAt(f.Type(), unsafe.Pointer(f.UnsafeAddr())).Elem().Interface().([]string)
+	}
+	return get(verifHookFields[0]), get(verifHookFields[1]), get(verifHookFields[2]), get(verifHookFields[3])
 }
